@@ -39,7 +39,7 @@ use surf_n_term::{
 pub struct C10;
 
 /// generate "unbounded" constraints (max up to usize::MAX) in about 1 case of 40
-const ALLOW_HUGE_CT: bool = false;
+const ALLOW_HUGE_CT: bool = true;
 
 // ---------------------------------------------------------------------------
 // spec
